@@ -601,6 +601,9 @@ fn show_loc(r: &Result<Result<MappedLocalTime<i32>, String>, ()>) -> String {
 /// (`tzp.at` / `tzp.loc`, proved never to panic on accepted zones and equal to C05's models) must give
 /// the same answer — value, `err` or `panic` — at the extremes of `i64` / `NaiveDateTime` and around
 /// every transition (all of them up to 24 (quick) / 200 (thorough) per zone, else the first and last 8 and a sample).
+/// timestamps of `NaiveDateTime::MIN` / `MAX` (the representable instants)
+const NDT_MIN_TS: i64 = -8334601228800;
+const NDT_MAX_TS: i64 = 8210266876799;
 fn probe(c: &mut Ctx, z: &vt::Zone, times: &[i64], label: &str, bytes: &[u8]) {
     let dump = z.dump();
     let mut instants: Vec<i64> = vec![
@@ -651,7 +654,14 @@ fn probe(c: &mut Ctx, z: &vt::Zone, times: &[i64], label: &str, bytes: &[u8]) {
         for (t, r) in chunk.iter().zip(&res) {
             match r {
                 Ok(Ok(_)) => c.count("lookup.instant:ok"),
-                Ok(Err(_)) => c.count("lookup.instant:err"),
+                // the property: an accepted zone ANSWERS for every representable instant — inside the
+                // range of NaiveDateTime an `Err` is a failure (it is the `.expect` of Cache::offset;
+                // theorem local_offset_total); outside it (i64 extremes) an `Err` is legitimate
+                Ok(Err(e)) if (NDT_MIN_TS..=NDT_MAX_TS).contains(t) => {
+                    c.count("lookup.instant:ERR-in-range");
+                    c.fail("offset lookup by instant failed on an accepted zone for a representable instant", &format!("{} t={} err={} file={}", label, t, e, hex(bytes)));
+                }
+                Ok(Err(_)) => c.count("lookup.instant:err-outside-naive-range"),
                 Err(()) => {
                     c.count("lookup.instant:PANIC");
                     c.fail("offset lookup by instant panicked on an accepted zone", &format!("{} t={} file={}", label, t, hex(bytes)));
@@ -703,7 +713,12 @@ fn probe(c: &mut Ctx, z: &vt::Zone, times: &[i64], label: &str, bytes: &[u8]) {
         for (l, r) in chunk.iter().zip(&res) {
             match r {
                 Ok(Ok(_)) => c.count("lookup.local:ok"),
-                Ok(Err(_)) => c.count("lookup.local:err"),
+                // every NaiveDateTime is a representable wall-clock time: the lookup must answer
+                // (None / Single / Ambiguous), never `Err` (theorem lookup_local_total: always Ok)
+                Ok(Err(e)) => {
+                    c.count("lookup.local:ERR");
+                    c.fail("offset lookup by wall clock failed on an accepted zone", &format!("{} local={:?} err={} file={}", label, l, e, hex(bytes)));
+                }
                 Err(()) => {
                     c.count("lookup.local:PANIC");
                     c.fail("offset lookup by wall clock panicked on an accepted zone", &format!("{} local={:?} file={}", label, l, hex(bytes)));
@@ -746,6 +761,47 @@ fn layout_oracle(c: &mut Ctx, bytes: &[u8], label: &str) {
 }
 /// the `Vec::with_capacity` requests the model logs (element counts) are the counts of the header
 /// of the block that is decoded (`hdr` starts at that header)
+/// Direct oracles on every ACCEPTED file (round 3; findings F35 / F36, both repaired in the crate —
+/// the oracles stay as plain failures):
+/// (1) "bad version" / "inconsistent data": the version field of the second header must equal the
+/// first header's (RFC 8536 §3.1); the reader compares neither and decodes with the second one — a
+/// second header saying version 1 makes it take the HIGH four bytes of every 8-byte time;
+/// (2) "truncated data" / "malformed footer": a footer is NL TZ-string NL (RFC 8536 §3.3), at least
+/// two bytes; the reader accepts the single byte "\n", i.e. a file cut right after its footer's
+/// first newline, and drops the rule.
+fn versions_oracle(c: &mut Ctx, bytes: &[u8], label: &str, dump: &str) {
+    if bytes.len() < 5 || bytes[4] == 0 {
+        return;
+    }
+    let a4 = announced(bytes, 4);
+    if a4 + 44 > bytes.len() as u128 {
+        return;
+    }
+    let a4 = a4 as usize;
+    let name = |b: u8| match b {
+        0 => "v1".to_string(),
+        b'2' => "v2".to_string(),
+        b'3' => "v3".to_string(),
+        x => format!("0x{:02x}", x),
+    };
+    let (v1, v2) = (bytes[4], bytes[a4 + 4]);
+    if v1 != v2 {
+        c.count(&format!("accepted.versions:{}/{}", name(v1), name(v2)));
+        c.fail(
+            &format!("inconsistent header versions accepted: first={} second={}", name(v1), name(v2)),
+            &format!("{} file={} dump={}", label, hex(bytes), dump),
+        );
+    }
+    let a8 = announced(&bytes[a4..], 8);
+    if a4 as u128 + a8 + 1 == bytes.len() as u128 && bytes[bytes.len() - 1] == b'\n' {
+        c.count("accepted.footer:single-newline");
+        c.fail(
+            "truncated footer accepted: the footer is the single byte \\n (file cut right after the footer's first newline)",
+            &format!("{} len={} file={} dump={}", label, bytes.len(), hex(bytes), dump),
+        );
+    }
+}
+
 fn caps_op(c: &mut Ctx, bytes: &[u8], hdr: &[u8]) {
     let cnt = |k: usize| be32(&hdr[20 + 4 * k..]);
     c.op(&format!("tzp.caps {}", hex(bytes)), &format!("{} {} {}", cnt(3), cnt(4), cnt(2)));
@@ -786,6 +842,7 @@ fn read_tzif(c: &mut Ctx, bytes: &[u8], label: &str, times: &[i64]) -> Option<St
             let d = z.dump();
             c.op(&format!("tzp.tzif {}", hex(bytes)), &d);
             layout_oracle(c, bytes, label);
+            versions_oracle(c, bytes, label, &d);
             let own: Vec<i64>;
             let ts = if times.is_empty() {
                 own = dump_times(&d);
@@ -987,8 +1044,11 @@ fn mutations(c: &mut Ctx, base: &[u8], l: &Layout, ext_footer: bool) -> Vec<(Str
             if base[h + 4] != v {
                 let mut b = base.to_vec();
                 b[h + 4] = v;
-                let must = (hi == 0 && (v == 0 || base[h + 4] == 0)) || (v != b'3' && ext_footer && hi == 1);
-                out.push(("mut.version.other".into(), b, must));
+                // F35 (repaired): the base file carries the same version in both headers, so changing
+                // either byte to another KNOWN version makes the pair inconsistent (or turns a v1 file
+                // into a v2+ file without a second block, or the reverse): always rejected
+                let _ = ext_footer;
+                out.push(("mut.version.other".into(), b, true));
             }
         }
         // reserved bytes are ignored
@@ -1010,10 +1070,10 @@ fn mutations(c: &mut Ctx, base: &[u8], l: &Layout, ext_footer: bool) -> Vec<(Str
         if cut >= base.len() {
             continue;
         }
-        // the only proper prefix of a well-formed file that is well-formed: cut right after the
-        // footer's first newline (an empty footer)
-        let ok_cut = l.footer_off.map(|f| cut == f + 1).unwrap_or(false);
-        out.push((if ok_cut { "mut.trunc.emptyfooter".into() } else { "mut.trunc".into() }, base[..cut].to_vec(), !ok_cut));
+        // F36 (repaired): NO proper prefix of a well-formed file is accepted — the cut right after the
+        // footer's first newline (a one-byte footer "\n") used to be; it keeps its own label
+        let nl_cut = l.footer_off.map(|f| cut == f + 1).unwrap_or(false);
+        out.push((if nl_cut { "mut.trunc.emptyfooter".into() } else { "mut.trunc".into() }, base[..cut].to_vec(), true));
     }
     // trailing data
     {
